@@ -263,9 +263,21 @@ def check(model, rep, tier):
              core.norm(_V().visit(tpl.expand(fi_, c.args[0], c))) == ip and
              core.norm(c.args[1]) == 'anno.Static.LIVE_VARS_IN']
     vals_in = []
+    # names bound by an assignment expression in a test (`(n := index.get(e)) is
+    # not None`) stand for that value
+    walrus = {}
+    for w_ in ast.walk(fi_.node):
+      if isinstance(w_, ast.NamedExpr) and isinstance(w_.target, ast.Name):
+        walrus.setdefault(w_.target.id, []).append(w_.value)
+
+    class _W(ast.NodeTransformer):
+      def visit_Name(self, n_):
+        if n_.id in walrus and len(walrus[n_.id]) == 1 and isinstance(n_.ctx, ast.Load):
+          return tpl.expand(fi_, walrus[n_.id][0], walrus[n_.id][0])
+        return n_
     for c in isets:
       for conds, v in pathsym.path_values(fi_.node, c, c.args[2]):
-        arms = [_V().visit(v)]
+        arms = [_V().visit(_W().visit(v))]
         while any(isinstance(a, ast.IfExp) for a in arms):     # both arms of a choice
           arms = [b for a in arms for b in (
               (a.body, a.orelse) if isinstance(a, ast.IfExp) else (a,))]
